@@ -40,14 +40,238 @@ def oracle_roundtrip(a):
     return None
 
 
-ORACLES = []
-FINDINGS = {}
+# ------------------------------------------------------------------ fragment F1 (Props/C01.lean)
+F1_FEATURES = {"attr", "elem", "child", "list", "text", "ns"}
+
+CHAIN_DESC = {"classes": [
+    {"name": "Leaf0", "fields": [{"name": "z", "type": {"opt": "str"}, "metadata": {"type": "Element"}, "default": {"value": None}}]},
+    {"name": "Mid0", "meta": {"namespace": "urn:b"},
+     "fields": [{"name": "y", "type": {"opt": {"cls": "Leaf0"}}, "metadata": {"type": "Element"}, "default": {"value": None}}]},
+    {"name": "Root", "meta": {"namespace": "urn:a"},
+     "fields": [{"name": "x", "type": {"opt": {"cls": "Mid0"}}, "metadata": {"type": "Element"}, "default": {"value": None}}]},
+]}
+CHAIN_VALUE = {"obj": "Root", "fields": [["x", {"obj": "Mid0", "fields": [["y", {"obj": "Leaf0", "fields": [["z", {"str": "t"}]]}]]}]]}
+EMPTY_STR_DESC = {"classes": [{"name": "Root", "fields": [
+    {"name": "a", "type": "str", "metadata": {"type": "Element"}, "default": {"value": "ed"}}]}]}
+EMPTY_STR_VALUE = {"obj": "Root", "fields": [["a", {"str": ""}]]}
+XS_STRING = "{http://www.w3.org/2001/XMLSchema}string"
+ATTR_DT_DESC = {"classes": [{"name": "Root", "fields": [
+    {"name": "a", "type": {"opt": "str"}, "metadata": {"type": "Attribute"}, "default": {"value": None}}]}]}
+ATTR_DT_VALUE = {"obj": "Root", "fields": [["a", {"str": XS_STRING}]]}
+
+
+def _target_uri(q):
+    if q.startswith("{") and "}" in q:
+        uri, _, tag = q[1:].partition("}")
+        if uri and tag:
+            return uri
+    return None
+
+
+def _meta_for(cls, pns):
+    for p, m in cls["metas"]:
+        if p == pns:
+            return m
+    return cls["metas"][0][1]
+
+
+def _drop_q(m):
+    return {k: v for k, v in m.items() if k != "qname"}
+
+
+def _elem_vars(m):
+    return [v for _, vs in m["elements"] for v in vs]
+
+
+def ns_agree_everywhere(ctx):
+    """`nsAgree` of Bind/F1.lean re-implemented on the exported JSON: for every model-typed element
+    var `v` of every class meta `m`, the classes of the model-typed vars of `v`'s class have the same
+    metadata (up to the class qname) under the namespace of `v.qname` and under the namespace of the
+    class of `v`."""
+    classes = {c["id"]: c for c in ctx["classes"]}
+    for ci in ctx["classes"]:
+        for _, m in ci["metas"]:
+            for v in _elem_vars(m):
+                if not v["clazz"]:
+                    continue
+                m2 = _meta_for(classes[v["clazz"]], _target_uri(m["qname"]))
+                for w in _elem_vars(m2):
+                    if not w["clazz"]:
+                        continue
+                    c3 = classes[w["clazz"]]
+                    if _drop_q(_meta_for(c3, _target_uri(v["qname"]))) != _drop_q(_meta_for(c3, _target_uri(m2["qname"]))):
+                        return False
+    return True
+
+
+def gen_ctxF1(rng, tier):
+    for desc in (CHAIN_DESC, EMPTY_STR_DESC, ATTR_DT_DESC):
+        u = B.Universe(desc)
+        _UNIS[u.modname] = u
+        yield {"ctx": u.export_ctx(), "desc": desc, "_uni": u.modname}
+    for _ in range(n_cases(tier, 60, 1500)):
+        u, desc, ctx = new_universe(rng, F1_FEATURES)
+        yield {"ctx": ctx, "desc": desc, "_uni": u.modname}
+
+
+def impl_ctxF1(a):
+    """exported real universes built from the F1 feature set are in fragment F1, except for the
+    namespace chains of known finding C01-ns-chain"""
+    return {"ok": ns_agree_everywhere(a["ctx"])}
+
+
+CORRS.append(
+    Corr("bind.ctxF1", gen_ctxF1, impl_ctxF1, classify=lambda a, o: f"ctxF1={o.get('ok')}",
+         describe="hypothesis ctxF1 of bind_generate_F1 holds on exported real universes of the F1 feature set")
+)
+
+
+# ------------------------------------------------------------------ oracle: the property on the implementation
+def desc_in_F1(desc):
+    for c in desc["classes"]:
+        if c.get("bases") or (c.get("meta") or {}).get("nillable"):
+            return False
+        for f in c["fields"]:
+            md = f.get("metadata", {})
+            if md.get("type", "Text" if not md else None) not in ("Attribute", "Element", "Text", None):
+                return False
+            if any(k in md for k in ("nillable", "tokens", "wrapper", "sequence", "mixed", "choices")) or f.get("init") is False:
+                return False
+            t = G._base(f["type"])
+            if not (t in ("str", "int", "bool") or (isinstance(t, dict) and "cls" in t)):
+                return False
+    return True
+
+
+TYPING_REGIONS = ("out-of-claim: None inside a list", "out-of-claim: None where the default is not None")
+
+
+def regions(desc, value):
+    """the known findings / out-of-claim regions an F1 instance falls under"""
+    by = {c["name"]: c for c in desc["classes"]}
+    out = []
+
+    def walk(v):
+        c = by[v["obj"]]
+        for (name, x), f in zip(v["fields"], c["fields"]):
+            md = f.get("metadata", {})
+            typ = md.get("type") or "Text"
+            dflt = f.get("default", {}).get("value", "<none>") if "default" in f else "<required>"
+            is_list = isinstance(x, dict) and "list" in x
+            for y in (x["list"] if is_list else [x]):
+                if y is None and is_list:
+                    out.append(TYPING_REGIONS[0])
+                elif y is None and dflt is not None:
+                    out.append(TYPING_REGIONS[1])
+                if isinstance(y, dict) and "obj" in y:
+                    walk(y)
+                if isinstance(y, dict) and "str" in y:
+                    if "\r" in y["str"]:
+                        out.append("out-of-claim: carriage return (C08)")
+                    if typ == "Attribute" and y["str"].startswith("{"):
+                        from xsdata.models.enums import DataType
+
+                        if DataType.from_qname(y["str"]):
+                            out.append("C01-attr-datatype-clark-name")
+                    if y["str"] == "" and typ == "Element" and not is_list and dflt not in (None, "", "<required>"):
+                        out.append("C01-empty-str-element-default")
+                    if y["str"] == "" and typ == "Text" and dflt != "":
+                        out.append("out-of-claim: empty text vs None")
+
+    walk(value)
+    return out
+
+
+def excluded_region(desc, value):
+    r = regions(desc, value)
+    return r[0] if r else None
+
+
+def gen_oracle(rng, tier):
+    for _ in range(n_cases(tier, 150, 3000)):
+        u, desc, ctx = new_universe(rng, F1_FEATURES)
+        for _ in range(6):
+            try:
+                obj = G.gen_instance(rng, u, "Root")
+            except Exception:  # noqa: BLE001
+                continue
+            yield {"value": u.to_val(obj), "clazz": "Root", "desc": desc, "_uni": u.modname, "ctx": ctx,
+                   "ignore_default_attributes": rng.random() < 0.3}
+
+
+def adapt_oracle(op, a):
+    if not desc_in_F1(a["desc"]) or "value" not in a:
+        return None
+    return {**a, "clazz": a.get("clazz", "Root")}
+
+
+def covered_oracle(a, msg):
+    if not ns_agree_everywhere(a["ctx"]):
+        return "C01-ns-chain"
+    return excluded_region(a["desc"], a["value"])
+
+
+# ------------------------------------------------------------------ c01.valF1: the value hypothesis on real instances
+def gen_valF1(rng, tier):
+    for desc, value in ((CHAIN_DESC, CHAIN_VALUE), (EMPTY_STR_DESC, EMPTY_STR_VALUE), (ATTR_DT_DESC, ATTR_DT_VALUE)):
+        u = B.Universe(desc)
+        _UNIS[u.modname] = u
+        yield {"ctx": u.export_ctx(), "value": value, "clazz": "Root", "desc": desc, "_uni": u.modname}
+    for a in gen_oracle(rng, tier):
+        yield {k: a[k] for k in ("ctx", "value", "clazz", "desc", "_uni")}
+
+
+def impl_valF1(a):
+    """`valF1` / `instF1` of Bind/F1.lean against the independent description of the excluded regions
+    used by the oracle (`regions`)"""
+    r = [x for x in regions(a["desc"], a["value"]) if "carriage return" not in x]
+    return {"ok": {"ctxF1": ns_agree_everywhere(a["ctx"]), "valF1": not r, "instF1": not [x for x in r if x in TYPING_REGIONS]}}
+
+
+CORRS.append(
+    Corr("c01.valF1", gen_valF1, impl_valF1, classify=lambda a, o: json.dumps(o.get("ok"), sort_keys=True),
+         describe="hypotheses valF1/instF1 of the C01 theorems on real instances vs the oracle's description of the excluded regions")
+)
+
+ORACLES = [
+    Oracle("roundtrip", gen_oracle, oracle_roundtrip, covered=covered_oracle,
+           from_ops=("bind.roundtrip", "bind.generate"), adapt=adapt_oracle),
+]
+
+
+# ------------------------------------------------------------------ known findings (replayed on the real code)
+def _replay(desc, value, expect):
+    u = B.Universe(desc)
+    obj = u.from_val(value)
+    seen = []
+    for writer in ("native", "lxml"):
+        xml = G.real_serialize(u, obj, writer=writer)
+        for handler in ("native", "lxml"):
+            r = G.real_parse_bytes(u, "Root", xml.encode(), handler=handler)
+            seen.append(r.get("err") or ("same" if r["ok"]["value"] == value else json.dumps(r["ok"]["value"])))
+    return all(expect(x) for x in seen), f"{xml.split('?>')[-1].strip()} -> {sorted(set(seen))}"
+
+
+FINDINGS = {
+    "C01-empty-str-element-default": lambda: _replay(EMPTY_STR_DESC, EMPTY_STR_VALUE, lambda x: '"ed"' in x),
+    "C01-attr-datatype-clark-name": lambda: _replay(ATTR_DT_DESC, ATTR_DT_VALUE, lambda x: "xs:string" in x),
+    "C01-ns-chain": lambda: _replay(CHAIN_DESC, CHAIN_VALUE, lambda x: x == "ParserError"),
+}
 TRUSTED = [
     "metadata (XmlMeta/XmlVar) is exported from the real XmlContext.build and is an input of the model (builders.py is not modelled here)",
     "primitive converters restricted to str/int/bool/QName in this layer",
     "expat/lxml tokenisers and writers only through the end-to-end op bind.roundtrip",
 ]
 ASSUMPTIONS = []
-LEVEL_TEXT = "pending"
-LEVEL_NOTE = "pending"
-NOT_CLAIMED = "binding-layer model and correspondence are in place; the property theorems are not finished yet"
+LEVEL_TEXT = "proof (fragment F1) + correspondence"
+LEVEL_NOTE = (
+    "bind_generate_F1 (Props/C01.lean): generate -> abstract writer -> parseRoot is the identity, with no converter warning, "
+    "for every universe with ctxF1 (attributes, primitive/model-typed elements optional/required/list, a text var, class and "
+    "field namespaces) and every instance with valF1, for both settings of ignore_default_attributes, all parser configs and "
+    "every Unicode Env; the excluded regions have machine-checked witnesses replayed on the real code."
+)
+NOT_CLAIMED = (
+    "outside fragment F1 (wildcards, mixed, anyType, nillable, tokens, wrapper, sequence, compound fields, Attributes, "
+    "xsi:type/inheritance, unions, init=False, QName values) only the correspondence is checked; the concrete writers "
+    "(prefix bookkeeping, escaping, indentation) are the subject of C03"
+)
